@@ -373,12 +373,15 @@ VALID_NAMES = ["x-verif-a", "x-verif-b", "new-type", "abc", "x-a1-b2", "verif9",
                "x-" + "a" * 248, "x-" + "b" * 247, "x-" + "c" * 200]      # exactly 250 (the upper limit), 249 and 202 characters
 BUILTIN_NAMES = ["identity", "file", "statement", "archive-ext", "indicator", "url", "tlp", "bundle", "marking-definition"]
 INVALID_NAMES = ["X-Upper", "x_under", "9lead", "-lead", "x--double", "a--", "ab", "a", "x-é", "x verif", "trail-", "x-", "a" * 251, "x.dot", "", "x-verif-A",
-                 "a1-", "ab-", "9x9", "x---y", "abc--def-ghi", "x-nl\n", "abc\n"]
+                 "a1-", "ab-", "9x9", "x---y", "abc--def-ghi", "x-nl\n", "abc\n", "x-verif-\u0663", "x-\u0430bc", "x-stra\u00dfe", "abc\uff11"]
 VALID_PROPS = [[("prop_a", "string-required"), ("p" * 250, "integer")], [("prop_a", "string-required"), ("abc", "integer")],
                [("prop_a", "string-required"), ("prop_b", "integer")], [("prop_a", "string-required")], [("x_foo", "string"), ("prop_a", "string-required")],
                [("prop_a", "string-required"), ("owner_ref", "ref")]]
 BAD_PROPS = [[("Prop", "string")], [("a-b", "string")], [("a b", "string")], [("9ab", "string")], [("_ab", "string")], [("ab", "string")], [("p" * 251, "string")],
-             [("é_prop", "string")], [("aB", "string")], [("some_ref", "string")], [("some_refs", "list-string")], [("prop_a", "string-required"), ("b_C", "integer")], [("foo\n", "string")], [("prop_a", "string-required"), ("prop_b\n", "integer")]]
+             [("é_prop", "string")], [("aB", "string")], [("some_ref", "string")], [("some_refs", "list-string")], [("prop_a", "string-required"), ("b_C", "integer")], [("foo\n", "string")], [("prop_a", "string-required"), ("prop_b\n", "integer")],
+             # characters that Unicode-aware classes (\\d, \\w, str.isdigit/isalnum/islower) take for digits or lower-case letters
+             [("hit_count_\u0663", "string")], [("prop_a", "string-required"), ("rank_\u00b2", "integer")], [("prop_\u00df", "string")], [("\u0430bc", "string")],
+             [("prop_a", "string-required"), ("abc\uff11", "integer")]]
 
 
 @st.composite
@@ -405,6 +408,9 @@ def reg_op(draw, used):
     op = {"op": "register", "kind": kind, "ver": ver, "name": name, "props": [list(p) for p in props]}
     if kind in ("object", "observable") and ver == "2.1" and draw(st.integers(0, 4)) == 0:
         op["extension_name"] = "extension-definition--" + str(draw(st.sampled_from([UUID, "7e4ba2c2-6b3e-4a0f-9a6e-0e2f5f5d0a11"])))
+        if draw(st.integers(0, 3)) == 0:
+            # names the extension registry accepts or refuses by its own rules, but that are not extension-definition identifiers
+            op["extension_name"] = draw(st.sampled_from(["x-verif-helper-ext", "x-verif-helper", "extension-definition--", "X-Bad-ext", "archive-ext"]))
     if kind == "extension" and ver == "2.1" and draw(st.booleans()):
         op["extension_type"] = draw(st.sampled_from(["property-extension", "toplevel-property-extension", "new-sdo"]))
     used.add(name)
